@@ -219,6 +219,11 @@ def table_item(toks, d):
         if kind != 'UNIQUE' and d != 'mysql': raise SkelError('inline KEY / INDEX in CREATE TABLE is MySQL syntax')
         if toks[i][0] == 'id' and d == 'mysql': cname = toks[i][1]; i += 1
         extra = {}
+        if d == 'mysql' and is_word(toks[i], 'USING'):      # {INDEX | KEY} [index_name] [USING {BTREE | HASH}] (key_part, ...)
+            extra['using'] = str(toks[i+1][1]).upper(); i += 2
+            if toks[i][0] != 'group':
+                # USING HASH(`id`): the type name is directly followed by the column list
+                raise SkelError('column list expected after the index type')
         if kind == 'UNIQUE' and d == 'postgres' and is_word(toks[i], 'NULLS'):
             if not (is_word(toks[i+1], 'NOT') and is_word(toks[i+2], 'DISTINCT')): raise SkelError('NULLS NOT DISTINCT expected')
             extra['nnd'] = True; i += 3
